@@ -209,7 +209,7 @@ class LazyRow:
 
 
 @script(["C04", "C15"], "find_best_audit/post (3 candidates, every tail; any number of ballots, symbolic NEB matrix and difficulty function)",
-        variants=TAILS)
+        variants=TAILS, optional=True)
 def find_best_audit_post(S, I, variant):
     c = ctx()
     tail = [C3[int(k)] for k in variant[0].split("-")]
